@@ -198,7 +198,12 @@ def check_format_input_orientation(inp, init_format=False):
         inpQ = inp.as_quat()
     # return
     if init_format:
-        return np.reshape(inpQ, (-1, 4))
+        inpQ = np.reshape(inpQ, (-1, 4))
+        if len(inpQ) == 0:
+            raise MagpylibBadUserInput(
+                "Input parameter `orientation` must not be an empty `Rotation` object."
+            )
+        return inpQ
     return inp, inpQ
 
 
@@ -347,7 +352,13 @@ def check_format_input_vector(
         ),
     )
     if isinstance(reshape, tuple):
-        return np.reshape(inp, reshape)
+        inp = np.reshape(inp, reshape)
+        if len(inp) == 0:
+            raise MagpylibBadUserInput(
+                f"Input parameter `{sig_name}` must be {sig_type}.\n"
+                "Instead received an empty array_like."
+            )
+        return inp
 
     if forbid_negative0:
         if np.any(inp <= 0):
